@@ -100,7 +100,7 @@ var wantArms = []string{
 }
 
 func checkC12(c *core.Ctx, l *core.Ledger) {
-	l.Explanation = "Static clauses of C12: (ENV-SEQ) strict and legacy envelope headers are written and read (stream and random-access readers) with the same ordered layout as the frozen Thrift rows, sharing the version constant/mask; (CLASSIFY) DecodeRequest and ReadRequest classify the first two bytes with the same three-way test in the same priority, check the envelope type before succeeding and build the same responder with Name/SeqID taken from the decoded envelope; (ECHO) each responder re-wraps with its own framing and echoes its Name/SeqID with the caller's type, the bare responder writes the bare struct, the envelope server copies request Name/SeqID; (FULL-READ) no raw io.Reader.Read in protocol/binary, so read segmentation cannot change classification; (PAIR) every borrowed stream reader/writer is released on all exits. (REPLY-CLASS) envelope.ReadReply, evaluated for all 256 type bytes: Reply yields the body, Exception the decoded TApplicationException, every other value an error that never reaches the exception decoder. NOT decided: round-trip equality of names/bodies, multiplexed names, seqid extremes."
+	l.Explanation = "Static clauses of C12: (ENV-SEQ) strict and legacy envelope headers are written and read (stream and random-access readers) with the same ordered layout as the frozen Thrift rows, sharing the version constant/mask; (CLASSIFY) DecodeRequest and ReadRequest classify the first two bytes with the same three-way test in the same priority, check the envelope type before succeeding and build the same responder with Name/SeqID taken from the decoded envelope; (ECHO) each responder re-wraps with its own framing and echoes its Name/SeqID with the caller's type, the bare responder writes the bare struct, the envelope server copies request Name/SeqID; (FULL-READ) no raw io.Reader.Read in protocol/binary, so read segmentation cannot change classification; (PAIR) every borrowed stream reader/writer is released on all exits. (REPLY-CLASS) envelope.ReadReply, evaluated for all 256 type bytes: Reply yields the body, Exception the decoded TApplicationException, every other value an error that never reaches the exception decoder. (MUX-SPLIT) the multiplex handler takes the service prefix off at the first ':' — the inverse of what the multiplex client adds. NOT decided: round-trip equality of names/bodies, multiplexed names, seqid extremes."
 	l.RuleText = "one obligation per (rule, function or arm)"
 	l.Assumptions = []string{"io.ReadFull reads exactly len(buf) bytes unless the stream ends"}
 	m := newWireModel(c)
@@ -249,6 +249,7 @@ func checkC12(c *core.Ctx, l *core.Ledger) {
 	l.Floor("CLASSIFY", 4)
 
 	checkReplyClassify(c, l)
+	checkMuxSplit(c, l, "MUX-SPLIT")
 
 	// 3. ECHO
 	echo := []struct {
